@@ -37,9 +37,10 @@ def check_try_send(f, rep):
         for p in pathq.paths(f, b):
             if p.end != "return":
                 continue
-            pr = [(i, ev) for i, ev in enumerate(p.events) if ev.kind == "call" and short(ev.name) == "poll_ready"]
-            ss = [(i, ev) for i, ev in enumerate(p.events) if ev.kind == "call" and short(ev.name) == "start_send"]
-            pf = [(i, ev) for i, ev in enumerate(p.events) if ev.kind == "call" and short(ev.name) == "poll_flush"]
+            # (SinkExt's `*_unpin` forms are Pin::new(self).*)
+            pr = [(i, ev) for i, ev in enumerate(p.events) if ev.kind == "call" and short(ev.name) in ("poll_ready", "poll_ready_unpin")]
+            ss = [(i, ev) for i, ev in enumerate(p.events) if ev.kind == "call" and short(ev.name) in ("start_send", "start_send_unpin")]
+            pf = [(i, ev) for i, ev in enumerate(p.events) if ev.kind == "call" and short(ev.name) in ("poll_flush", "poll_flush_unpin")]
             if not pr:
                 rep.bad("R12.2", "R12.2|%s|readiness-checked" % b.path, "try_send never asks the sink whether it can take an item (poll_ready missing): the high-water mark is not honoured", b.loc())
                 continue
@@ -50,6 +51,28 @@ def check_try_send(f, rep):
                     arm = "ready" if c[1] == 0 else "pending"
                 if arm == "ready" and e[0] == "discr" and e[1][0] == "field" and e[1][1][0] == "downcast" and e[1][1][1] == r and c[0] == "eq":
                     arm = "ready_ok" if c[1] == 0 else "ready_err"
+            if arm is None:
+                # the other spelling: `poll_ready(cx)?` takes the Ready(Err) exit through Try for Poll<Result<..>>, and what is left
+                # is asked `is_pending()` / `is_ready()` (or matched)
+                from ..sym import derived_decision
+                for (e, c, _, _) in p.conds:
+                    d = derived_decision(e, c)
+                    if d is not None:
+                        e, c = d
+                    if e[0] != "discr" or c[0] != "eq":
+                        continue
+                    x = e[1]
+                    if x[0] in ("call", "pure") and short(x[1]) == "branch" and x[2] and x[2][0] == r:
+                        arm = "ready_err" if c[1] == 1 else "continue"
+                    elif arm == "continue":
+                        y = x
+                        while isinstance(y, tuple) and y and y[0] in ("ref", "deref"):
+                            y = y[1]
+                        if y[0] == "field" and y[1][0] == "downcast" and y[1][2] == "Continue" and y[1][1][0] in ("call", "pure") and \
+                                short(y[1][1][1]) == "branch" and y[1][1][2] and y[1][1][2][0] == r:
+                            arm = "ready_ok" if c[1] == 0 else "pending"
+                if arm == "continue":
+                    arm = None
             cx = pr[0][1].args[1] if len(pr[0][1].args) > 1 else None
             noop = cx is not None and pathq.mentions_call(cx, lambda y: short(y[1]) in ("noop_waker", "noop_waker_ref")) is not None
             rep.check(noop, "R12.2", "R12.2|%s|noop-context" % b.path, "readiness is polled with a no-op waker context (nothing is registered to wake)", b.loc(pr[0][1].bb))
@@ -60,7 +83,7 @@ def check_try_send(f, rep):
                 flush_res = pf[0][1].result if pf else None
                 flush_decided = any(e[0] == "discr" and pathq.mentions_call(e, lambda y: y == flush_res) is not None for (e, c, _, _) in p.conds) if flush_res else False
                 rk = pathq.ret_kind(p)
-                ss_ok = pathq.ok_decided(p, lambda x: x[0] in ("call", "pure") and short(x[1]) == "start_send")
+                ss_ok = pathq.ok_decided(p, lambda x: x[0] in ("call", "pure") and short(x[1]) in ("start_send", "start_send_unpin"))
                 if rk == "Ok":
                     rep.check(ok and not flush_decided and ss_ok, "R12.2", "R12.2|%s|ready-path" % b.path,
                               "Ready(Ok): exactly one start_send after the readiness check, then a best-effort poll_flush whose outcome is ignored (start_send %d, flush %d, flush outcome inspected %s)" % (len(ss), len(pf), flush_decided), b.loc())
